@@ -230,7 +230,7 @@ pub fn sites_from_backtrace(bt: &str) -> (Option<String>, Option<String>) {
         let site = render_site(f, l);
         let mut it = site.splitn(3, "::");
         let (_file, func, text) = (it.next(), it.next().unwrap_or(""), it.next().unwrap_or(""));
-        func == "?" || text.starts_with("#[derive")
+        func == "?" || func == "<derive>" || text.starts_with("#[derive")
     };
     let oi = frames.iter().position(|(f, l)| !is_helper(f, *l)).unwrap_or(0);
     let (of, ol) = frames[oi].clone();
@@ -293,10 +293,15 @@ pub fn render_site(file: &str, line: u32) -> String {
         }
         let text = lines[line as usize - 1].trim();
         let mut func = "?".to_string();
-        for i in (0..line as usize).rev() {
-            if let Some(n) = fn_name_of(&lines[i]) {
-                func = n;
-                break;
+        if text.starts_with("#[derive") {
+            // compiler-generated code (Clone of a struct): there is no enclosing fn
+            func = "<derive>".to_string();
+        } else {
+            for i in (0..line as usize).rev() {
+                if let Some(n) = fn_name_of(&lines[i]) {
+                    func = n;
+                    break;
+                }
             }
         }
         format!("{}::{}::{}", rel, func, text)
